@@ -10,7 +10,7 @@ VAR_POOLS = {
     "long": ["S", "Aa", "B1", "Cvar", "Dd", "E5"],
     # every name the library itself creates for fresh variables (cfg.py) can also be a user's variable
     "fresh": ["S", "A", "#STARTUNION#", "#STARTCONC#", "#STARTCLOS#", "#STARTPOSCLOS#", "#VARPOSCLOS#", "A#SUBS#0",
-              "S#SUBS#0", "C#CNF#1", "a#CNF#", "b#CNF#", "#EMPTY##SUBS#0"],
+              "S#SUBS#0", "C#CNF#1", "a#CNF#", "b#CNF#", "#EMPTY##SUBS#0", "#EMPTY#"],
     "lower": ["S", "x", "y", "z"],          # needs "VAR:" markers in text form
     "ints": ["S", 1, 2, 3],
     "int_str": ["S", 1, "1", "A"],          # different values with the same str()
